@@ -48,7 +48,7 @@ func hasPosts(n *model.Node) (any, failing bool) {
 	n.Walk(func(x *model.Node) {
 		for _, p := range x.Posts {
 			any = true
-			if p.Behaviour == "error" || p.Behaviour == "issue" || p.Behaviour == "wrapped" {
+			if p.Behaviour == "error" || p.Behaviour == "issue" || p.Behaviour == "issue-nopath" || p.Behaviour == "wrapped" {
 				failing = true
 			}
 		}
@@ -158,7 +158,7 @@ func genC13(rt *rapid.T, cfg model.GenCfg, failingPost bool) c13Case {
 		})
 		if len(nodes) > 0 {
 			n := nodes[rapid.IntRange(0, len(nodes)-1).Draw(rt, "postnode")]
-			n.Posts = append(n.Posts, model.PostSpec{Behaviour: rapid.SampledFrom([]string{"error", "issue", "wrapped"}).Draw(rt, "pb")})
+			n.Posts = append(n.Posts, model.PostSpec{Behaviour: rapid.SampledFrom([]string{"error", "issue", "wrapped", "issue-nopath"}).Draw(rt, "pb")})
 		}
 	}
 	root.Number()
